@@ -61,6 +61,14 @@ class C18(Prop):
         for i in range(n):
             if rng.random() < 0.35:
                 c = tied_topn_case(rng, tier)
+            elif rng.random() < 0.2:
+                # fixed weights on assets the (static) universe does not list, several rebalances, universe object shared by both runs
+                c = sl.gen_session(rng, tier, all_quoted=True, max_days=(30 if tier == 'quick' else 120), outside_universe=True)
+                c['mode'] = 'twice'
+                c['share_universe'] = True
+                c['stream'] += ':outside-universe:shared-universe'
+                out.append(c)
+                continue
             else:
                 c = sl.gen_session(rng, tier, all_quoted=True, max_days=(30 if tier == 'quick' else 120))
             if rng.random() < 0.6 and c['stream'] != 'tied-topn':
@@ -116,6 +124,9 @@ class C18(Prop):
                 c['default_handler'] = True
                 c['mode'] = 'default_after_other'
                 c['stream'] += ':default-dir-after-other-dir'
+            if c['mode'] == 'twice' and rng.random() < 0.6:
+                c['share_universe'] = True          # the second run is given the universe object of the first
+                c['stream'] += ':shared-universe'
             out.append(c)
         return out
 
